@@ -27,6 +27,12 @@ func c19CoalescedSSE(c *vh.Case) {
 	early := r.Range(1, 3)     // messages written together with the endpoint event
 	oneWrite := r.Chance(3, 4) // ... in one Write; otherwise in separate Writes without a pause in between
 	version := r.Choose("2025-06-18", "2025-11-25", "2025-03-26")
+	// an event without an "event:" field is a message event (the SSE default): servers may leave the field out
+	evName := "event: message\n"
+	if r.Chance(1, 3) {
+		evName = ""
+		c.Count("sse_sessions_with_unnamed_message_events", 1)
+	}
 	var mu sync.Mutex
 	var posted []string
 	toStream := make(chan string, 16)
@@ -38,7 +44,7 @@ func c19CoalescedSSE(c *vh.Case) {
 			first := "event: endpoint\ndata: /msg?sessionid=s1\n\n"
 			var rest []string
 			for i := 0; i < early; i++ {
-				rest = append(rest, fmt.Sprintf("event: message\ndata: {\"jsonrpc\":\"2.0\",\"id\":\"early-%d\",\"method\":\"ping\"}\n\n", i))
+				rest = append(rest, fmt.Sprintf("%sdata: {\"jsonrpc\":\"2.0\",\"id\":\"early-%d\",\"method\":\"ping\"}\n\n", evName, i))
 			}
 			if oneWrite {
 				io.WriteString(w, first+strings.Join(rest, ""))
@@ -54,7 +60,7 @@ func c19CoalescedSSE(c *vh.Case) {
 				case <-req.Context().Done():
 					return
 				case m := <-toStream:
-					io.WriteString(w, "event: message\ndata: "+m+"\n\n")
+					io.WriteString(w, evName+"data: "+m+"\n\n")
 					w.(http.Flusher).Flush()
 				}
 			}
@@ -112,5 +118,5 @@ func c19CoalescedSSE(c *vh.Case) {
 		c.Violate("message-lost-in-sse-framing", "the server wrote %d ping request(s) right behind the endpoint event (one Write: %v); the client answered %d of them (it posted %d message(s): %v): what shared a read with the endpoint event never reached the session", early, oneWrite, answered, len(got), trunc80(strings.Join(got, " | ")))
 		return
 	}
-	c.Nontrivial(fmt.Sprintf("coalesced-sse/%d/%v/%s", early, oneWrite, version))
+	c.Nontrivial(fmt.Sprintf("coalesced-sse/%d/%v/%s/%v", early, oneWrite, version, evName == ""))
 }
